@@ -159,6 +159,8 @@ def check_iterations(ctx: core.Ctx, g: GenInfo, rule="GEN-ITER"):
         node = i["node"]
         func = i["func"]
         where = f"{i['file']}:{func}"
+        while isinstance(src, tuple) and src and src[0] == "ENUM":
+            src = unwrap_elem(src[1])                     # enumerate(X) iterates X in X's order
         if isinstance(src, tuple) and src and src[0] in ("RANGE", "PREFIX"):
             continue
         lay = g.layout(src)
